@@ -74,8 +74,54 @@ impl KeepTime for Clock {
 }
 
 // ------------------------------------------------------------------------------------------------ event language
+/// a hostile transaction SHAPE: type x slip counts x slip-type pattern per side x signed or not (zero amounts, the
+/// attacker's own key everywhere, so the cheap early checks of `Transaction::validate` pass)
+#[derive(Clone, Copy, Debug, PartialEq, Eq)]
+pub struct Shape {
+    pub ty: u8,
+    pub nin: u8,
+    pub nout: u8,
+    pub pin: u8,
+    pub pout: u8,
+    pub signed: bool,
+}
+pub const TX_TYPE_NAMES: [&str; 9] = ["normal", "fee", "goldenticket", "atr", "vip", "spv", "issuance", "blockstake", "bound"];
+impl Shape {
+    /// coarse class used in finding keys: transaction type + relation of the slip counts
+    pub fn class(&self) -> String {
+        let cnt = if self.nin == 0 {
+            "no-inputs"
+        } else if self.nout == 0 {
+            "no-outputs"
+        } else if (self.nin >= 3) != (self.nout >= 3) {
+            "lopsided-slip-counts"
+        } else if self.nin >= 3 {
+            "three-or-more-slips-each-side"
+        } else {
+            "fewer-than-three-slips-each-side"
+        };
+        format!("{}-tx-{}", TX_TYPE_NAMES[(self.ty as usize).min(8)], cnt)
+    }
+    pub fn spec(&self) -> String {
+        format!("shape {} {} {} {} {} {}", self.ty, self.nin, self.nout, self.pin, self.pout, self.signed as u8)
+    }
+}
+fn slip_pattern(p: u8, n: usize) -> Vec<SlipType> {
+    (0..n)
+        .map(|i| match p {
+            1 if i == 0 => SlipType::Bound,
+            2 if i % 2 == 0 => SlipType::Bound,
+            3 if i == 0 => SlipType::BlockStake,
+            4 if i == 0 => SlipType::ATR,
+            _ => SlipType::Normal,
+        })
+        .collect()
+}
+
 #[derive(Clone, Copy, Debug, PartialEq, Eq)]
 pub enum TxC {
+    /// the transaction described by the world's current `Shape` (shape sweep, monitor-only)
+    Shape,
     Valid,
     BadSig,
     SpendMissing,
@@ -90,6 +136,7 @@ pub enum TxC {
 impl TxC {
     pub fn name(&self) -> &'static str {
         match self {
+            TxC::Shape => "shape",
             TxC::Valid => "valid",
             TxC::BadSig => "badsig",
             TxC::SpendMissing => "spendmissing",
@@ -108,6 +155,8 @@ impl TxC {
 
 #[derive(Clone, Copy, Debug, PartialEq, Eq)]
 pub enum BlkC {
+    /// a valid block on the tip into which the transaction of the current `Shape` was inserted (re-signed)
+    Shape,
     Garbage,
     WrongHash,
     DupInput,
@@ -123,6 +172,7 @@ pub enum BlkC {
 impl BlkC {
     pub fn name(&self) -> String {
         match self {
+            BlkC::Shape => "shape".into(),
             BlkC::Garbage => "garbage".into(),
             BlkC::WrongHash => "wronghash".into(),
             BlkC::DupInput => "dupinput".into(),
@@ -179,6 +229,8 @@ pub enum Ev {
     Advance,
     /// set-up only (no handler call): `message_limiter.increase()` n times on peer p, as if n messages had arrived
     BumpMsg { p: u64, n: u64 },
+    /// set-up only: the shape that `tx:shape` / `fetched .. shape` refer to from now on
+    SetShape(Shape),
 }
 
 impl MsgC {
@@ -236,6 +288,7 @@ impl Ev {
             Ev::Tick => "tick".into(),
             Ev::Advance => "advance".into(),
             Ev::BumpMsg { p, n } => format!("bumpmsg {} {}", p, n),
+            Ev::SetShape(sh) => sh.spec(),
         }
     }
     pub fn sender(&self) -> Option<u64> {
@@ -247,7 +300,7 @@ impl Ev {
     }
     /// is this a peer input (counts towards the sequence length) as opposed to a schedule step
     pub fn is_input(&self) -> bool {
-        !matches!(self, Ev::RunV | Ev::RunC | Ev::Tick | Ev::Advance | Ev::BumpMsg { .. })
+        !matches!(self, Ev::RunV | Ev::RunC | Ev::Tick | Ev::Advance | Ev::BumpMsg { .. } | Ev::SetShape(_))
     }
 }
 
@@ -290,6 +343,7 @@ pub struct World {
     /// blocks on the node's main chain as the harness (a peer) knows it: 3 after set-up
     pub main_len: u64,
     pub fork_done: [bool; 3],
+    pub cur_shape: Option<Shape>,
 }
 
 #[derive(Clone, Debug, PartialEq, Eq, Default)]
@@ -553,6 +607,7 @@ impl World {
             nonce: 0,
             main_len: 0,
             fork_done: [false; 3],
+            cur_shape: None,
         };
         w.setup().await;
         // the same node switched to lite / browser mode after set-up (the handlers read the mode on every call)
@@ -797,6 +852,46 @@ impl World {
             s
         };
         match c {
+            TxC::Shape => {
+                let sh = self.cur_shape.expect("shape set");
+                tx.transaction_type = match sh.ty {
+                    0 => TransactionType::Normal,
+                    1 => TransactionType::Fee,
+                    2 => TransactionType::GoldenTicket,
+                    3 => TransactionType::ATR,
+                    4 => TransactionType::Vip,
+                    5 => TransactionType::SPV,
+                    6 => TransactionType::Issuance,
+                    7 => TransactionType::BlockStake,
+                    _ => TransactionType::Bound,
+                };
+                if sh.ty == 2 {
+                    // a well-formed ticket payload, so that the sweep is about slips, not about the payload length
+                    let tip = self.chain.last().unwrap().hash;
+                    tx.data = GoldenTicket::create(tip, saito_core::core::util::crypto::hash(&self.rng.bytes(32)), pk).serialize_for_net();
+                }
+                for (i, t) in slip_pattern(sh.pin, sh.nin as usize).into_iter().enumerate() {
+                    let mut sl = Slip::default();
+                    sl.public_key = pk;
+                    sl.amount = 0;
+                    sl.block_id = 1;
+                    sl.tx_ordinal = 0;
+                    sl.slip_index = i as u8;
+                    sl.slip_type = t;
+                    tx.from.push(sl);
+                }
+                for (i, t) in slip_pattern(sh.pout, sh.nout as usize).into_iter().enumerate() {
+                    let mut sl = Slip::default();
+                    sl.public_key = pk;
+                    sl.amount = 0;
+                    sl.slip_index = i as u8;
+                    sl.slip_type = t;
+                    tx.to.push(sl);
+                }
+                if sh.signed {
+                    tx.sign(&sk);
+                }
+            }
             TxC::Valid | TxC::BadSig => {
                 // a real unspent output of the sender if the harness knows one, else a zero-amount input
                 if let Some(k) = self.spendable.iter().position(|u| u.owner == from_key) {
@@ -862,6 +957,18 @@ impl World {
         let now = self.now();
         let ser = |b: &Block| b.serialize_for_net(BlockType::Full);
         match c {
+            BlkC::Shape => {
+                let mut stx = self.make_tx(TxC::Shape, creator);
+                let gt = self.factory.golden_ticket_tx(&tip, creator);
+                let mut b = self.factory.make_block(tip.hash, tip.timestamp + 250, creator, vec![], Some(gt)).await.expect("block");
+                stx.generate(&key(creator).0, 0, b.id);
+                b.transactions.insert(0, stx);
+                b.merkle_root = [0; 32];
+                b.merkle_root = b.generate_merkle_root(false, false);
+                self.factory.resign(&mut b, creator);
+                let _ = b.generate();
+                (b.hash, b.id, ser(&b))
+            }
             BlkC::Garbage => ([7; 32], tip.id + 1, self.rng.bytes(50)),
             BlkC::Known => (tip.hash, tip.id, ser(&tip)),
             BlkC::Next | BlkC::NextFuture | BlkC::WrongHash | BlkC::Tampered => {
@@ -1113,16 +1220,21 @@ impl World {
                     }
                 }
                 MsgC::TxTrunc => "tag4-claimed-lengths-exceed-buffer".into(),
+                MsgC::Tx(TxC::Shape) => self.shape_class(),
                 MsgC::GhostShort => "tag10-short-or-inconsistent-buffer".into(),
                 other => format!("msg-{}", other.token().split(':').next().unwrap_or("")),
             },
             Ev::RunV => match self.vq.front().map(|x| &x.1) {
+                Some(VItem::Tx(_, TxC::Shape)) => self.shape_class(),
+                Some(VItem::Blk(_, BlkC::Shape)) => format!("block-with-{}", self.shape_class()),
                 Some(VItem::Blk(_, BlkC::DupInput)) => "fetched-block-first-tx-repeats-input".into(),
                 Some(VItem::Blk(_, c)) => format!("verify-block-{}", self.blk_name(*c)),
                 Some(VItem::Tx(_, c)) => format!("verify-tx-{}", c.name()),
                 None => "idle".into(),
             },
             Ev::RunC => match self.cq.front().map(|x| &x.1) {
+                Some(CItem::Tx(TxC::Shape)) => self.shape_class(),
+                Some(CItem::Blk(_, BlkC::Shape)) => format!("block-with-{}", self.shape_class()),
                 Some(CItem::Tx(TxC::GtShort)) | Some(CItem::Tx(TxC::GtLong)) => "golden-ticket-tx-payload-not-97-bytes".into(),
                 Some(CItem::Blk(_, BlkC::GtShort)) => "block-with-golden-ticket-payload-not-97-bytes".into(),
                 Some(CItem::Blk(_, BlkC::SpendMissing)) => "block-spending-nonexistent-output".into(),
@@ -1143,15 +1255,22 @@ impl World {
                 let ahead = guarded(|| bc.get_latest_block().map(|b| b.timestamp >= now).unwrap_or(false)).unwrap_or(false);
                 if ahead {
                     "tip-timestamp-ahead-of-clock".into()
-                } else if self.pool.iter().any(|c| matches!(c, TxC::Issuance | TxC::Atr)) {
+                } else if self.pool.iter().any(|c| matches!(c, TxC::Issuance | TxC::Atr)) || (self.pool.contains(&TxC::Shape) && self.cur_shape.map(|s| s.nin == 0).unwrap_or(false)) {
                     "pooled-transaction-without-inputs".into()
+                } else if self.pool.contains(&TxC::Shape) {
+                    format!("pooled-{}", self.shape_class())
                 } else {
                     "tick".into()
                 }
             }
+            Ev::Fetched { b: BlkC::Shape, .. } => format!("fetched-block-with-{}", self.shape_class()),
             Ev::Fetched { b, .. } => format!("fetched-{}", self.blk_name(*b)),
             other => other.token().split(' ').next().unwrap_or("").to_string(),
         }
+    }
+
+    pub fn shape_class(&self) -> String {
+        self.cur_shape.map(|s| s.class()).unwrap_or("shape".into())
     }
 
     pub fn handler_of(ev: &Ev) -> &'static str {
@@ -1196,6 +1315,10 @@ impl World {
         let mut ib0: Option<(u64, u64)> = None;
         let chain_len0 = self.chain.len();
         let res: Result<Option<()>, String> = match ev {
+            Ev::SetShape(sh) => {
+                self.cur_shape = Some(*sh);
+                return StepObs { outcome: "setup".into(), sent: false, dq: (0, 0, 0), post: "-".into(), panic_msg: String::new(), panic_loc: String::new(), handler: "-", bundled: false };
+            }
             Ev::BumpMsg { p, n } => {
                 let mut peers = self.peers.write().await;
                 if let Some(peer) = peers.index_to_peers.get_mut(p) {
@@ -1320,6 +1443,12 @@ impl World {
             if bundled && self.sync_from_node().await {
                 self.main_len += 1;
             }
+            // a shape block that the node accepted is the peers' new tip as well
+            if let Some(CItem::Blk(_, BlkC::Shape)) = &popped_c {
+                if self.sync_from_node().await {
+                    self.main_len += 1;
+                }
+            }
         }
         let (disc, sent) = {
             let d = self.disk.lock().unwrap();
@@ -1389,7 +1518,7 @@ impl World {
                             }
                             if refused { "rejected" } else { "handled" }.to_string()
                         }
-                        Ev::Tick | Ev::Advance | Ev::BumpMsg { .. } => "handled".to_string(),
+                        Ev::Tick | Ev::Advance | Ev::BumpMsg { .. } | Ev::SetShape(_) => "handled".to_string(),
                         _ => if returned_some { "handled" } else { "rejected" }.to_string(),
                     }
                 };
@@ -1401,10 +1530,14 @@ impl World {
 
 // ------------------------------------------------------------------------------------------------ specs (corpus format)
 fn parse_txc(s: &str) -> Option<TxC> {
+    if s == "shape" {
+        return Some(TxC::Shape);
+    }
     TxC::ALL.iter().find(|c| c.name() == s).cloned()
 }
 fn parse_blkc(s: &str) -> Option<BlkC> {
     Some(match s {
+        "shape" => BlkC::Shape,
         "garbage" => BlkC::Garbage,
         "wronghash" => BlkC::WrongHash,
         "dupinput" => BlkC::DupInput,
@@ -1491,6 +1624,14 @@ pub fn parse_ev(s: &str) -> Option<Vec<Ev>> {
         ["tick"] => vec![Ev::Tick],
         ["advance"] => vec![Ev::Advance],
         ["bumpmsg", p, n] => vec![Ev::BumpMsg { p: p.parse().ok()?, n: n.parse().ok()? }],
+        ["shape", ty, nin, nout, pin, pout, sg] => vec![Ev::SetShape(Shape {
+            ty: ty.parse().ok()?,
+            nin: nin.parse().ok()?,
+            nout: nout.parse().ok()?,
+            pin: pin.parse().ok()?,
+            pout: pout.parse().ok()?,
+            signed: *sg == "1",
+        })],
         _ => return None,
     })
 }
@@ -1511,7 +1652,9 @@ pub fn parse_case(line: &str) -> Option<Case> {
     for part in rest.split(';') {
         evs.extend(parse_ev(part.trim())?);
     }
-    Some(Case { mode, evs, origin: "corpus" })
+    // lines that use transaction shapes are monitor-only like the sweep itself (the model has no shape classes)
+    let origin = if evs.iter().any(|e| matches!(e, Ev::SetShape(_))) { "shape-sweep" } else { "corpus" };
+    Some(Case { mode, evs, origin })
 }
 
 #[derive(Clone, Debug)]
@@ -1537,6 +1680,17 @@ pub fn witnesses() -> Vec<(&'static str, &'static str)> {
         ("ghostbounds", "msg 3 ghostshort"),
         ("restore", "fetched 3 fork1 ; runv ; runc ; fetched 3 fork2 ; runv ; runc ; fetched 3 fork3 ; runv ; runc"),
         ("bundleclock", "fetched 3 nextfuture ; runv ; runc ; tick"),
+    ]
+}
+
+/// outcome-class probes (not panic sites): (flag name, event sequence); the flag is 1 iff the LAST step is `rejected`.
+/// They tell the model what a tree does with a block that spends a non-existent output, per node mode, independently
+/// of whether the supply-check panic (`txv`) is gone.
+pub fn outcome_probes() -> Vec<(&'static str, &'static str)> {
+    vec![
+        ("smrej", "fetched 3 spendmissing ; runv ; runc"),
+        ("smrejbrowser", "browser fetched 3 spendmissing ; runv ; runc"),
+        ("smrejspv", "spv fetched 3 spendmissing ; runv ; runc"),
     ]
 }
 
@@ -1594,7 +1748,7 @@ pub fn cases(seed: u64, tier: &str) -> Vec<Case> {
             }
         }
     }
-    for (_, w) in witnesses() {
+    for (_, w) in witnesses().into_iter().chain(outcome_probes().into_iter()) {
         v.push(parse_case(w).unwrap());
     }
     // 1. systematic: every message class from every sender state, then the pipeline is drained
@@ -1790,6 +1944,40 @@ pub fn cases(seed: u64, tier: &str) -> Vec<Case> {
         }
         v.push(Case { mode: 0, evs, origin: "fork" });
     }
+    // 5. hostile transaction SHAPE sweep (monitor-only): every transaction type x 0..4 inputs x 0..4 outputs x slip-type
+    //    patterns per side x signed/unsigned, as a tag-4 message from the peer without handshake and inside a fetched
+    //    block, each followed by verification, consensus and a timer tick. Many shapes share one node; the node is
+    //    re-created after a panic and every 40 shapes.
+    {
+        let pats: Vec<(u8, u8)> = if thorough { vec![(0, 0), (1, 1), (2, 2), (3, 3), (4, 4), (2, 0), (0, 2), (1, 0), (3, 0)] } else { vec![(0, 0), (1, 1), (2, 2), (3, 3), (2, 0), (0, 2)] };
+        let mut groups: Vec<Vec<Ev>> = vec![];
+        for ty in 0..9u8 {
+            for nin in 0..=4u8 {
+                for nout in 0..=4u8 {
+                    for (pin, pout) in pats.iter() {
+                        // patterns differ from all-Normal only where there are slips to put them on
+                        if (*pin != 0 && nin == 0) || (*pout != 0 && nout == 0) {
+                            continue;
+                        }
+                        for signed in [true, false] {
+                            // quick: unsigned shapes only with the plain and the Bound,Normal,Bound patterns
+                            if !signed && !thorough && !matches!((pin, pout), (0, 0) | (2, 2)) {
+                                continue;
+                            }
+                            let sh = Shape { ty, nin, nout, pin: *pin, pout: *pout, signed };
+                            groups.push(vec![Ev::SetShape(sh), Ev::Msg { from: P_ATT, m: MsgC::Tx(TxC::Shape) }, Ev::RunV, Ev::RunC, Ev::Tick]);
+                            if signed || thorough {
+                                groups.push(vec![Ev::SetShape(sh), Ev::Fetched { from: P_ATT, b: BlkC::Shape }, Ev::RunV, Ev::RunC, Ev::Tick]);
+                            }
+                        }
+                    }
+                }
+            }
+        }
+        for chunk in groups.chunks(40) {
+            v.push(Case { mode: 0, evs: chunk.iter().flatten().cloned().collect(), origin: "shape-sweep" });
+        }
+    }
     // the same side branch when the main chain has grown meanwhile: no reorganisation, no stall
     for mode in [1u8, 2] {
         v.push(Case { mode, evs: parse_case("fetched 3 fork1 ; runv ; runc ; fetched 3 fork2 ; runv ; runc ; fetched 3 fork3 ; runv ; runc ; tick").unwrap().evs, origin: "fork" });
@@ -1822,7 +2010,8 @@ pub fn inventory() -> serde_json::Value {
     let pats = [".unwrap()", ".expect(", "unreachable!", "panic!(", "assert!(", "assert_eq!(", "assert_ne!("];
     let mut out = serde_json::Map::new();
     for f in files {
-        let text = std::fs::read_to_string(format!("/repo/{}", f)).unwrap_or_default();
+        let repo = std::env::var("VERIF_REPO").unwrap_or_else(|_| "/repo".to_string());
+        let text = std::fs::read_to_string(format!("{}/{}", repo, f)).unwrap_or_default();
         let mut sites = vec![];
         for (i, line) in text.lines().enumerate() {
             if line.contains("#[cfg(test)]") || line.trim_start().starts_with("mod tests") {
@@ -1876,8 +2065,25 @@ pub fn worker(seed: u64, tier: &str, start: usize) {
             let spec: Vec<String> = c.evs.iter().map(|e| e.spec()).collect();
             let ctx = serde_json::json!({"suite": "disp", "case": k, "mode": c.mode, "events": spec.join(" ; ")});
             emit("X", &ctx.to_string());
+            let sweep = c.origin == "shape-sweep";
+            // events applied to the CURRENT node since it was created (what a replay has to run)
+            let mut since_reset: Vec<String> = vec![];
+            let mut skip_to_next_shape = false;
             for (step, ev) in c.evs.iter().enumerate() {
-                if let Ev::BumpMsg { .. } = ev {
+                if sweep {
+                    if let Ev::SetShape(_) = ev {
+                        if skip_to_next_shape {
+                            // the node died on the previous shape: a fresh one for the rest of the sweep
+                            w = World::new(seed.wrapping_add(k as u64).wrapping_add(step as u64), c.mode).await;
+                            since_reset.clear();
+                            skip_to_next_shape = false;
+                        }
+                    } else if skip_to_next_shape {
+                        continue;
+                    }
+                    since_reset.push(ev.spec());
+                }
+                if let Ev::BumpMsg { .. } | Ev::SetShape(_) = ev {
                     w.apply(ev).await;
                     continue;
                 }
@@ -1911,7 +2117,9 @@ pub fn worker(seed: u64, tier: &str, start: usize) {
                 let obs = w.apply(ev).await;
                 let tok = if let Ev::Tick = ev { format!("tick {}", obs.bundled as u8) } else { tok0 };
                 let op = format!("step {} | {}", summary, tok);
-                emit("I", &format!("{}\t{}", op, obs.answer()));
+                let ctx = if sweep { serde_json::json!({"suite": "disp", "case": k, "mode": c.mode, "events": since_reset.join(" ; "), "shape": w.cur_shape.map(|s| format!("{:?}", s))}) } else { ctx.clone() };
+                // sweep steps are monitor-only: the line is recorded but not compared with the model
+                emit(if sweep { "U" } else { "I" }, &format!("{}\t{}", op, obs.answer()));
                 emit("H", &format!("outcome:{}", obs.outcome.split(':').next().unwrap_or("")));
                 emit("H", &format!("event:{}", ev.token().split(':').next().unwrap_or("").split(' ').filter(|t| t.parse::<u64>().is_err()).collect::<Vec<_>>().join("-")));
                 if obs.outcome.starts_with("panic") {
@@ -1928,6 +2136,10 @@ pub fn worker(seed: u64, tier: &str, start: usize) {
                             serde_json::json!({"case": ctx, "step": step, "event": ev.spec(), "op": op})
                         ),
                     );
+                    if sweep {
+                        skip_to_next_shape = true;
+                        continue;
+                    }
                     return; // the node is gone
                 }
                 if matches!(obs.outcome.as_str(), "rejected" | "ratelimited" | "disconnected") {
@@ -1964,7 +2176,7 @@ pub fn worker(seed: u64, tier: &str, start: usize) {
 pub fn witness_one(name: &str) {
     record_panics();
     let rt = rt();
-    let w = witnesses().into_iter().find(|(n, _)| *n == name);
+    let w = witnesses().into_iter().chain(outcome_probes().into_iter()).find(|(n, _)| *n == name);
     let (_, spec) = match w {
         Some(x) => x,
         None => {
@@ -1974,7 +2186,7 @@ pub fn witness_one(name: &str) {
     };
     let c = parse_case(spec).unwrap();
     rt.block_on(async {
-        let mut w = World::new(4242, 0).await;
+        let mut w = World::new(4242, c.mode).await;
         let mut last = String::from("ok");
         for ev in &c.evs {
             w.prepare(ev);
@@ -2025,6 +2237,13 @@ pub fn calibrate() -> (String, serde_json::Value) {
         parts.push(format!("{}={}", name, flag));
         detail.insert(name.to_string(), serde_json::json!({"witness": spec, "observed": what, "flag": flag}));
     }
+    for (name, spec) in outcome_probes() {
+        let r = run_child_with_timeout(&["disp-witness", name, "x", "x"], 6000);
+        let what = r.clone().unwrap_or("stall".to_string());
+        let flag = (what == "rejected") as u8;
+        parts.push(format!("{}={}", name, flag));
+        detail.insert(name.to_string(), serde_json::json!({"probe": spec, "observed": what, "flag": flag, "meaning": "1 iff the last step is rejected"}));
+    }
     (parts.join(" "), serde_json::Value::Object(detail))
 }
 
@@ -2072,6 +2291,12 @@ pub fn run(seed: u64, tier: &str, outdir: &str) {
                             pending_op = None;
                             if let Some((op, ans)) = rest.split_once('\t') {
                                 out.case(op, ans);
+                            }
+                        }
+                        "U" => {
+                            pending_op = None;
+                            if let Some((op, ans)) = rest.split_once('\t') {
+                                out.setup(&format!("sweep {} => {}", op, ans));
                             }
                         }
                         "H" => out.count(rest),
